@@ -148,6 +148,7 @@ def run(ctx, obl):
             res.hist("flagset", "+".join(main["flags"]) or "none")
             res.hist("run-mode", main["mode"])
             res.hist("rerun", str(main["rerun"]))
+            res.hist("generated-header-file", str(bool(main["en"].get("genheader"))))
             res.hist("requested-feature", main["en"].get("feature", "random"))
             res.hist("constants", str(len(main["decl"])))
         core.compare_cases(ctx, res, cases, impl, model, sig=sig,
